@@ -12,7 +12,7 @@ for log in sys.argv[1:]:
         if not line.startswith('{'):
             continue
         c = json.loads(line)
-        m = re.match(r'/tmp/seed([23])-(C\d+)/(\d)$', c['seed'])
+        m = re.match(r'/tmp/seed([234])-(C\d+)/(\d)$', c['seed'])
         if not m:
             continue
         rnd, prop, n = int(m.group(1)), m.group(2), int(m.group(3))
